@@ -165,7 +165,23 @@ func runBDN(c *vf.Check, k combo, n int) {
 	}
 	// reference aggregate keys per mask (first route), for the cross-mask rejection
 	refKey := map[int][]byte{}
-	for mask := 1; mask < 1<<n; mask++ {
+	var masks []int
+	if n <= 5 {
+		for mask := 1; mask < 1<<n; mask++ {
+			masks = append(masks, mask)
+		}
+	} else {
+		// more signers than one mask byte holds: a menu of masks around the byte boundary
+		full := 1<<n - 1
+		seen := map[int]bool{}
+		for _, m := range []int{1, 1 << 7, 1 << 8 & full, 1 << (n - 1), full, 0xff, full &^ 0xff, 0x155 & full, 0x2aa & full, 0x181 & full, full &^ 1, full &^ (1 << 7), full &^ (1 << (n - 1)), 0x0f0, 0x303 & full} {
+			if m != 0 && !seen[m] {
+				seen[m] = true
+				masks = append(masks, m)
+			}
+		}
+	}
+	for _, mask := range masks {
 		mask := mask
 		c.Case(fmt.Sprintf("%s: reference key of mask %b", cfg, mask), pk+"/AggregatePublicKeys", func(x *vf.Ctx) {
 			m, err := routesFor(mask)[0].build()
@@ -181,7 +197,7 @@ func runBDN(c *vf.Check, k combo, n int) {
 			refKey[mask] = enc(ak)
 		})
 	}
-	for mask := 1; mask < 1<<n; mask++ {
+	for _, mask := range masks {
 		if refKey[mask] == nil {
 			continue
 		}
@@ -258,6 +274,6 @@ func runBDN(c *vf.Check, k combo, n int) {
 			}
 		}
 	}
-	c.Count("states", int64(1)<<n-1)
+	c.Count("states", int64(len(masks)))
 	_ = privs
 }
